@@ -4,6 +4,7 @@
 import PyGqlModel.Lex
 import PyGqlModel.Lemmas.LexBlockString
 import PyGqlModel.Lemmas.LexChars
+import PyGqlModel.Lemmas.LexRange
 
 namespace PyGql.Props.C02
 open PyGql.Lex PyGql.BlockString
